@@ -94,8 +94,8 @@ def main(tier, seed):
 
     def rec(i, kind):
         c, r = cases[i], results[i]
-        return dict(kind=kind, label=c['label'], acceptor=c['acceptor'], ops=pd.short_ops(c['ops']), result=pd.summary(r),
-                    reference=c.get('ref'))
+        return pd.replayable(dict(kind=kind, label=c['label'], acceptor=c['acceptor'], ops=pd.short_ops(c['ops']),
+                                  result=pd.summary(r), reference=c.get('ref')), c, ref=refs.get(c.get('ref')))
     spec_set = set(failing['spec'])
     for i in failing['spec']:
         dec.report(rec(i, 'segmentation-changes-result'))
@@ -110,6 +110,4 @@ def main(tier, seed):
 
 
 def replay(rec):
-    print(rec.get('label'), rec.get('ops'))
-    print('recorded:', rec.get('result'))
-    return 0
+    return pd.replay_case('C03', rec, [('corr', 'prov_corr'), ('spec', 'c03_spec')])
